@@ -5,7 +5,7 @@
 # files everything under /verif/seeded/<PROP>-<m>/.
 export GOFLAGS=-mod=mod GOPROXY=off GOSUMDB=off GOTOOLCHAIN=local
 P=$1; M=$2; shift 2; CHECKS=${@:-$P}
-WT=/tmp/seed-$P; OUT=/tmp/seed-$P-out/$M; DST=/verif/seeded/$P-$M
+PFX=${SEED_PREFIX:-seed}; WT=/tmp/$PFX-$P; OUT=/tmp/$PFX-$P-out/$M; DST=/verif/seeded/$P-$M
 [ -f $OUT/patch.diff ] || { echo "no patch"; exit 2; }
 mkdir -p $DST; cp $OUT/* $DST/ 2>/dev/null
 git -C $WT checkout -q -- . && git -C $WT clean -fdq
